@@ -49,6 +49,20 @@ fn mutate(t: &mut Tape, s: String) -> String {
         3 => s.replacen(' ', "  ", 1),
         4 => s.replace(|c: char| c.is_ascii_digit(), "x"),
         5 => format!(" {s}"),
+        // proper prefixes / suffixes (cut at a char boundary) and the sides of an alternation bar:
+        // what an unanchored or unescaped literal would still accept
+        6 => {
+            let cuts: Vec<usize> = s.char_indices().map(|(i, _)| i).skip(1).collect();
+            if cuts.is_empty() { s } else { s[..cuts[t.pick(cuts.len())]].to_string() }
+        }
+        7 => {
+            let cuts: Vec<usize> = s.char_indices().map(|(i, _)| i).skip(1).collect();
+            if cuts.is_empty() { s } else { s[cuts[t.pick(cuts.len())]..].to_string() }
+        }
+        8 if s.contains('|') => {
+            let parts: Vec<&str> = s.split('|').collect();
+            parts[t.pick(parts.len())].to_string()
+        }
         _ => s,
     }
 }
